@@ -10,6 +10,7 @@ import numpy as np
 
 from vp import gen, probe
 from vp import defaults
+from vp import reuse
 
 RULE = ('seeded generator: non-negative images 1..40 per side of any aspect ratio (odd/even/non-square), smooth (sums of '
         'Gaussians) and spiky, blur extents 0..10 samples, all angles, pixel scales and oversampling 1..6, circular '
@@ -181,6 +182,7 @@ def image(rng, shape, smooth):
 
 def workload(ctx, lentil):
     defaults.run(ctx, lentil, 'C19', 'blur:shape')
+    reuse.run(ctx, lentil, 'C19', 'blur:shape')
     rng = ctx.rng
     narrow_scalars(ctx, lentil, rng)
     small_int_arguments(ctx, lentil, rng)
